@@ -248,6 +248,11 @@ def explore(ck, want_c10=False, per_case=None, quick_gs=None):
     for (N, G, L, GS) in emits:
         cases += ck.tlc_shards("Threshold", lambda k: cfg(N, G, L, GS, True, 16, k, laws=False), 16, f"emit G={G} L={L} N<={N} GS={GS}", same_space=True, timeout=3000)
     ck.exhaustive = True
+    if ck.quick:
+        # a few larger TLC-simulated datasets (imbalanced labels, richer ROC hulls) - every equalized-odds configuration is fitted on them
+        sim = ck.tlc("Threshold", cfg(12, 2, 4, [2, 5, 10], True, sim=True, laws=False), "simulate G=2 L=4 N<=12", workers=1, simulate="num=14", depth=12, timeout=1500)
+        big = [c for c in sim.emitted if len(c["rows"]) >= 7]
+        cases += big
     if not ck.quick:
         for (G, L) in ((4, 4), (5, 3)):
             sim = ck.tlc("Threshold", cfg(14, G, L, [1, 2, 4, 10], True, sim=True, laws=False), f"simulate G={G} L={L} N<=14", workers=1,
@@ -258,6 +263,8 @@ def explore(ck, want_c10=False, per_case=None, quick_gs=None):
         allc = all_configs(c["gs"])
         rnd = random.Random(hash((ck.seed, i)) & 0xFFFFFFFF)
         chosen = allc if per_case >= len(allc) else rnd.sample(allc, per_case)
+        if len(c["rows"]) >= 7:
+            chosen = chosen + [x for x in allc if x[0] == "eo" and x not in chosen]
         for j, conf in enumerate(chosen):
             jobs.append((c, conf, ck.seed, (i + j) % 7, want_c10 and j % 8 == 0, None))
         # grid_size 1000 (replay only): must equalise, and be at least as good as every emitted grid dividing 1000
